@@ -115,6 +115,19 @@ class Events(list):
     pass
 
 
+PACK_SEP = ' ;; '
+
+
+def pack_classes(cs):
+    return 'PACK{' + PACK_SEP.join(cs) + '}'
+
+
+def unpack_classes(c):
+    if isinstance(c, str) and c.startswith('PACK{') and c.endswith('}'):
+        return c[5:-1].split(PACK_SEP)
+    return None
+
+
 class ArmWalker:
     """Walks the statements of one arm in source order and records events."""
 
@@ -134,6 +147,7 @@ class ArmWalker:
         self.inline_depth = 0
         self.ret_stack = []                 # return classes collected while inlining
         self.param_exprs = []               # per inlined frame: parameter -> argument expression
+        self.frames = []                    # (inlined callee, its aliases when it returned)
 
     # -- classification of container expressions ------------------------------------------------
     def cls_of(self, e, depth=0):
@@ -142,6 +156,14 @@ class ArmWalker:
             return 'UNKNOWN'
         if e.kind in CTOR_KINDS and len(e.kids) == 1:
             return self.cls_of(e.kids[0], depth + 1)
+        if (e.kind in CTOR_KINDS or e.kind == 'InitListExpr') and len(e.kids) >= 2 and \
+                re.match(r'(const )?std::(pair|tuple)<', e.type or ''):
+            # a helper that hands back several values at once: the class of each component
+            return pack_classes([self.cls_of(k, depth + 1) for k in e.kids])
+        if e.kind == 'MemberExpr' and e.name in ('first', 'second') and e.kids and e.kids[0] is not None:
+            comps = unpack_classes(self.cls_of(e.kids[0], depth + 1))
+            if comps is not None and len(comps) == 2:
+                return comps[0 if e.name == 'first' else 1]
         p = member_path(e)
         if e.kind in ('DeclRefExpr',) and p is not None:
             if p in self.self_names:
@@ -305,6 +327,7 @@ class ArmWalker:
             rets = self.ret_stack.pop()
             self.inline_depth -= 1
             out_alias = self.alias
+            self.frames.append((callee, dict(out_alias)))
             self.alias, self.self_names, self.func, self.dead, self.loop = saved
             if callee.is_lambda:
                 # assignments to captured variables are visible afterwards
@@ -340,6 +363,16 @@ class ArmWalker:
             for v in s.kids:
                 if v is not None and v.kind == 'VarDecl':
                     self.vardecl(v)
+                elif v is not None and v.kind == 'DecompositionDecl':
+                    # `auto [a, b] = helper(...)`: each name stands for its component
+                    binds = [b for b in v.kids if b is not None and b.kind == 'BindingDecl']
+                    inits = [b for b in v.kids if b is not None and b.kind != 'BindingDecl']
+                    if inits:
+                        comps = unpack_classes(self.cls_of(inits[0]))
+                        self.expr(inits[0])
+                        for i, b in enumerate(binds):
+                            if b.name:
+                                self.alias[b.name] = comps[i] if comps is not None and i < len(comps) else 'UNKNOWN'
             return
         if k == 'IfStmt':
             kids = list(s.kids)
